@@ -15,7 +15,12 @@ JoinWith(ss, sep) == Cat([i \in 1 .. Len(ss) |-> (IF i > 1 THEN sep ELSE "") \o 
 \* ---- inlines: each has a source spelling (depending on the emphasis marker style) and an HTML form ----------------
 \* mode: "mmd" | "compat" ; smart: BOOLEAN (only meaningful in mmd mode)
 Words == <<"alpha", "beta", "x1">>
-Inl(k, a, b, c) == [k |-> k, a |-> a, b |-> b, c |-> c]
+Inl(k, a, b, c) == [k |-> k, a |-> a, b |-> b, c |-> c, x |-> ""]
+Inl4(k, a, b, c, x) == [k |-> k, a |-> a, b |-> b, c |-> c, x |-> x]
+\* document-level inlines: "ref" (reference link: a text, b url, c title, x label, "" = implicit [text][]), "fn" (footnote: a the word it hangs on,
+\* b the note's source, c the note's HTML, x its label).  Their definitions are written after the last block (Trailer), notes in *reverse* order so that
+\* numbering by first reference and numbering by definition order cannot be confused.
+Upper(s) == IF s = "lab" THEN "Lab" ELSE s                       \* labels are case-insensitive: the reference spells it differently from the definition
 InlSrc(i, us) ==      \* us: TRUE = underscore emphasis markers
   CASE i.k = "t"    -> i.a
     [] i.k = "em"   -> (IF us THEN "_" ELSE "*") \o i.a \o (IF us THEN "_" ELSE "*")
@@ -29,8 +34,14 @@ InlSrc(i, us) ==      \* us: TRUE = underscore emphasis markers
     [] i.k = "ent"  -> i.a
     [] i.k = "sup"  -> i.a \o "^" \o i.b \o "^"
     [] i.k = "sub"  -> i.a \o "~" \o i.b \o "~"
+    [] i.k = "ref"  -> "[" \o i.a \o "][" \o Upper(i.x) \o "]"
+    [] i.k = "fn"   -> i.a \o "[^" \o i.x \o "]"
+    [] i.k = "math" -> (CASE i.x = "paren" -> "\\\\(" \o i.a \o "\\\\)" [] i.x = "brack" -> "\\\\[" \o i.a \o "\\\\]" [] i.x = "dollar" -> "$" \o i.a \o "$" [] OTHER -> "$$" \o i.a \o "$$")
     [] OTHER        -> i.a                      \* "smart": punctuation written plainly
-InlHtml(i, mode, smart) ==
+Amp(s) == LET RECURSIVE A(_) A(j) == IF j > Len(s) THEN "" ELSE (IF SubSeq(s, j, j) = "&" THEN "&amp;" ELSE SubSeq(s, j, j)) \o A(j + 1) IN A(1)     \* "&" in an attribute value
+RECURSIVE NoteNo(_, _, _)
+NoteNo(notes, lab, j) == IF j > Len(notes) THEN 0 ELSE IF notes[j].x = lab THEN j ELSE NoteNo(notes, lab, j + 1)
+InlHtml(i, cx) ==      \* cx = [mode, smart, notes]: notes = the document's footnotes in order of first reference
   CASE i.k = "t"    -> i.a
     [] i.k = "em"   -> "<em>" \o i.a \o "</em>"
     [] i.k = "st"   -> "<strong>" \o i.a \o "</strong>"
@@ -41,9 +52,13 @@ InlHtml(i, mode, smart) ==
     [] i.k = "br"   -> i.a \o "<br />" \o i.b
     [] i.k = "esc"  -> i.a
     [] i.k = "ent"  -> i.b
-    [] i.k = "sup"  -> IF mode = "mmd" THEN i.a \o "<sup>" \o i.b \o "</sup>" ELSE i.a \o "^" \o i.b \o "^"
-    [] i.k = "sub"  -> IF mode = "mmd" THEN i.a \o "<sub>" \o i.b \o "</sub>" ELSE i.a \o "~" \o i.b \o "~"
-    [] OTHER        -> IF mode = "mmd" /\ smart THEN i.b ELSE i.c       \* a: source, b: typographic form, c: plain form
+    [] i.k = "sup"  -> IF cx.mode = "mmd" THEN i.a \o "<sup>" \o i.b \o "</sup>" ELSE i.a \o "^" \o i.b \o "^"
+    [] i.k = "sub"  -> IF cx.mode = "mmd" THEN i.a \o "<sub>" \o i.b \o "</sub>" ELSE i.a \o "~" \o i.b \o "~"
+    [] i.k = "ref"  -> "<a href=\"" \o Amp(i.b) \o "\"" \o (IF i.c # "" THEN " title=\"" \o i.c \o "\"" ELSE "") \o ">" \o i.a \o "</a>"
+    [] i.k = "fn"   -> LET n == ToString(NoteNo(cx.notes, i.x, 1)) IN
+                       i.a \o "<a href=\"#fn:" \o n \o "\" id=\"fnref:" \o n \o "\" title=\"see footnote\" class=\"footnote\"><sup>" \o n \o "</sup></a>"
+    [] i.k = "math" -> "<span class=\"math\">" \o (IF i.x \in {"paren", "dollar"} THEN "\\(" \o i.b \o "\\)" ELSE "\\[" \o i.b \o "\\]") \o "</span>"
+    [] OTHER        -> IF cx.mode = "mmd" /\ cx.smart THEN i.b ELSE i.c       \* a: source, b: typographic form, c: plain form
 Inlines == { Inl("t", "alpha", "", ""), Inl("em", "beta", "", ""), Inl("st", "x1", "", ""), Inl("code", "co de", "", ""),
              Inl("link", "alpha", "http://u.rl/p", ""), Inl("link", "beta", "http://u.rl/q?a=1", "ti tle"), Inl("auto", "http://a.b/c", "", ""),
              Inl("img", "alt", "i.png", ""), Inl("br", "x1", "beta", ""), Inl("esc", "*", "", ""), Inl("esc", "_", "", ""), Inl("esc", "#", "", ""),
@@ -52,14 +67,23 @@ Inlines == { Inl("t", "alpha", "", ""), Inl("em", "beta", "", ""), Inl("st", "x1
              Inl("smart", "\"alpha\"", "&#8220;alpha&#8221;", "&quot;alpha&quot;"), Inl("smart", "x1 -- beta", "x1 &#8211; beta", "x1 -- beta"),
              Inl("smart", "x1---beta", "x1&#8212;beta", "x1---beta"), Inl("smart", "alpha...", "alpha&#8230;", "alpha..."), Inl("smart", "it's", "it&#8217;s", "it's"),
              Inl("smart", "3-fold", "3-fold", "3-fold"), Inl("smart", "well-known", "well-known", "well-known"), Inl("smart", "'alpha'", "&#8216;alpha&#8217;", "'alpha'") }
-LineSrc(il, us) == JoinWith([j \in 1 .. Len(il) |-> InlSrc(il[j], us)], " ")
-LineHtml(il, mode, smart) == JoinWith([j \in 1 .. Len(il) |-> InlHtml(il[j], mode, smart)], " ")
+\* MultiMarkdown-only inlines (not compared in compatibility mode): math in its four spellings, reference links, footnotes
+RefA == Inl4("ref", "alpha", "http://a.b/c", "", "alpha")           \* implicit label: written [alpha][]
+RefB == Inl4("ref", "beta", "http://l.ab/x?p=1&q=2", "Ti tle", "lab")
+FnA == Inl4("fn", "alpha", "first note", "first note", "na")
+FnB == Inl4("fn", "x1", "second *note* & more", "second <em>note</em> &amp; more", "nb")
+MathInl == {Inl4("math", m[1], m[2], "", x) : m \in {<<"x^2", "x^2">>, <<"a_1 *b* a_2 < c", "a_1 *b* a_2 &lt; c">>}, x \in {"paren", "brack", "dollar", "ddollar"}}
+MmdInlines == MathInl \cup {RefA, RefB, FnA, FnB}
+LineSrc(il, us) == JoinWith([j \in 1 .. Len(il) |-> (IF il[j].k = "ref" /\ il[j].x = il[j].a THEN "[" \o il[j].a \o "][]" ELSE InlSrc(il[j], us))], " ")
+LineHtml(il, cx) == JoinWith([j \in 1 .. Len(il) |-> InlHtml(il[j], cx)], " ")
 \* heading id: the label of the heading text (lower case, letters and digits; our heading texts are words)
 Label(il) == Cat([j \in 1 .. Len(il) |-> il[j].a])
 
 \* ---- blocks ----------------------------------------------------------------------------------------------------------
-\* spelling parameters sp: [us, bullet ("*" "+" "-"), lead (0..3 leading spaces), closed (ATX closing hashes), ul (setext underline length), fence (3..5), hr (1..3)]
-B(k) == [k |-> k, l |-> 1, il |-> <<>>, s |-> <<>>, d |-> <<>>, o |-> FALSE, z |-> FALSE, info |-> ""]
+\* spelling parameters sp: [us, bullet ("*" "+" "-"), lead (0..3 leading spaces), closed (ATX closing hashes), ul (setext underline length), fence (3..5), hr (1..3),
+\*                          pipes (table rows written with outer pipes)]
+NoT == [al |-> <<>>, hd |-> <<>>, rows |-> <<>>, cap |-> ""]
+B(k) == [k |-> k, l |-> 1, il |-> <<>>, s |-> <<>>, d |-> <<>>, o |-> FALSE, z |-> FALSE, info |-> "", t |-> NoT]
 Para(il) == [B("para") EXCEPT !.il = il]
 Atx(l, il) == [B("atx") EXCEPT !.l = l, !.il = il]
 Setext(l, il) == [B("setext") EXCEPT !.l = l, !.il = il]
@@ -68,8 +92,12 @@ Fenced(info, s) == [B("fenced") EXCEPT !.info = info, !.s = s]
 Indented(s) == [B("indented") EXCEPT !.s = s]
 Quote(d) == [B("quote") EXCEPT !.d = d]
 List(o, z, d) == [B("list") EXCEPT !.o = o, !.z = z, !.d = d]       \* d: one block per item
+\* table: al = one alignment per column ("l" "c" "r" "n"), hd = header cells, rows = body rows, each cell an inline list; cap = caption word or ""
+Table(al, hd, rows, cap) == [B("table") EXCEPT !.t = [al |-> al, hd |-> hd, rows |-> rows, cap |-> cap]]
+\* definition list: t.rows = groups, each group <<terms, definitions>>, both sequences of inline lists
+DefList(groups) == [B("deflist") EXCEPT !.t = [NoT EXCEPT !.rows = groups]]
 
-RECURSIVE BlockSrc(_, _), DocSrc(_, _), BlockHtml(_, _, _), DocHtml(_, _, _), Prefix(_, _, _)
+RECURSIVE BlockSrc(_, _), DocSrc(_, _), BlockHtml(_, _), DocHtml(_, _), Prefix(_, _, _), Collect(_), CollectB(_)
 \* prefix every line of a text (lines end in \n); first is used for the first line
 Prefix(text, first, rest) ==
   LET RECURSIVE P(_, _)
@@ -78,7 +106,13 @@ Prefix(text, first, rest) ==
                             (IF atStart THEN (IF i = 1 THEN first ELSE (IF ch = "\n" THEN (IF rest = "> " THEN ">" ELSE "") ELSE rest)) ELSE "") \o ch \o P(i + 1, ch = "\n")
   IN P(1, TRUE)
 HrSrc(n) == CASE n = 1 -> "* * *" [] n = 2 -> "---" [] OTHER -> "_ _ _ _"
-CodeEsc(s) == s        \* code lines in the generator's alphabet carry their reserved characters through CodeLines below
+AlSrc(a) == CASE a = "l" -> ":--" [] a = "c" -> ":-:" [] a = "r" -> "--:" [] OTHER -> "---"
+RowSrc(cells, pipes) == (IF pipes THEN "| " ELSE "") \o JoinWith(cells, " | ") \o (IF pipes THEN " |" ELSE "") \o "\n"
+TableSrc(t, sp) == LET pipes == sp.pipes \/ t.al[1] \in {"l", "c"} \/ Len(t.al) = 1 IN        \* a row starting with ':' or having no inner pipe needs the outer ones
+  RowSrc([j \in 1 .. Len(t.hd) |-> LineSrc(t.hd[j], sp.us)], pipes)
+  \o (IF pipes THEN "|" ELSE "") \o JoinWith([j \in 1 .. Len(t.al) |-> AlSrc(t.al[j])], "|") \o (IF pipes THEN "|" ELSE "") \o "\n"
+  \o Cat([r \in 1 .. Len(t.rows) |-> RowSrc([j \in 1 .. Len(t.rows[r]) |-> LineSrc(t.rows[r][j], sp.us)], pipes)])
+  \o (IF t.cap # "" THEN "[" \o t.cap \o "]\n" ELSE "")
 BlockSrc(b, sp) ==
   CASE b.k = "para"     -> LineSrc(b.il, sp.us) \o "\n"
     [] b.k = "atx"      -> Rep("#", b.l) \o " " \o LineSrc(b.il, sp.us) \o (IF sp.closed THEN " " \o Rep("#", b.l) ELSE "") \o "\n"
@@ -87,41 +121,105 @@ BlockSrc(b, sp) ==
     [] b.k = "fenced"   -> Rep("`", sp.fence) \o b.info \o "\n" \o Cat([j \in 1 .. Len(b.s) |-> b.s[j].a \o "\n"]) \o Rep("`", sp.fence) \o "\n"
     [] b.k = "indented" -> Cat([j \in 1 .. Len(b.s) |-> "    " \o b.s[j].a \o "\n"])
     [] b.k = "quote"    -> Prefix(DocSrc(b.d, sp), "> ", "> ")
+    [] b.k = "table"    -> TableSrc(b.t, sp)
+    [] b.k = "deflist"  -> JoinWith([g \in 1 .. Len(b.t.rows) |->
+                                 Cat([j \in 1 .. Len(b.t.rows[g][1]) |-> LineSrc(b.t.rows[g][1][j], sp.us) \o "\n"])
+                                 \o Cat([j \in 1 .. Len(b.t.rows[g][2]) |-> ": " \o LineSrc(b.t.rows[g][2][j], sp.us) \o "\n"])], "\n")
     [] OTHER            -> Cat([j \in 1 .. Len(b.d) |->
                                  Prefix(BlockSrc(b.d[j], sp), Rep(" ", sp.lead) \o (IF b.o THEN ToString(j) \o ". " ELSE sp.bullet \o " "), "    ")
                                  \o (IF b.z /\ j < Len(b.d) THEN "\n" ELSE "")])
 DocSrc(d, sp) == JoinWith([j \in 1 .. Len(d) |-> BlockSrc(d[j], sp)], "\n")
+\* the document-level inlines of a document, in document order
+CollectIl(il) == SelectSeq(il, LAMBDA i : i.k \in {"ref", "fn"})
+CatSeq(ss) == LET RECURSIVE C(_) C(j) == IF j > Len(ss) THEN <<>> ELSE ss[j] \o C(j + 1) IN C(1)
+CollectB(b) == CASE b.k \in {"para", "atx", "setext"} -> CollectIl(b.il)
+                 [] b.k \in {"quote", "list"} -> Collect(b.d)
+                 [] b.k = "table" -> CatSeq([j \in 1 .. Len(b.t.hd) |-> CollectIl(b.t.hd[j])]) \o CatSeq([r \in 1 .. Len(b.t.rows) |-> CatSeq([j \in 1 .. Len(b.t.rows[r]) |-> CollectIl(b.t.rows[r][j])])])
+                 [] b.k = "deflist" -> CatSeq([g \in 1 .. Len(b.t.rows) |-> CatSeq([j \in 1 .. Len(b.t.rows[g][1]) |-> CollectIl(b.t.rows[g][1][j])]) \o CatSeq([j \in 1 .. Len(b.t.rows[g][2]) |-> CollectIl(b.t.rows[g][2][j])])])
+                 [] OTHER -> <<>>
+Collect(d) == CatSeq([j \in 1 .. Len(d) |-> CollectB(d[j])])
+Dedup(s) == LET RECURSIVE D(_, _) D(j, acc) == IF j > Len(s) THEN acc ELSE D(j + 1, IF \E q \in 1 .. Len(acc) : acc[q].x = s[j].x THEN acc ELSE Append(acc, s[j])) IN D(1, <<>>)
+Notes(d) == Dedup(SelectSeq(Collect(d), LAMBDA i : i.k = "fn"))
+Refs(d) == Dedup(SelectSeq(Collect(d), LAMBDA i : i.k = "ref"))
+Reverse(s) == [j \in 1 .. Len(s) |-> s[Len(s) + 1 - j]]
+\* definitions after the last block: notes in reverse order of first reference, then link definitions (title in double quotes)
+Trailer(d) == LET ns == Reverse(Notes(d)) rs == Refs(d) IN
+  (IF Len(ns) + Len(rs) > 0 THEN "\n" ELSE "")
+  \o Cat([j \in 1 .. Len(ns) |-> "[^" \o ns[j].x \o "]: " \o ns[j].b \o "\n"])
+  \o Cat([j \in 1 .. Len(rs) |-> "[" \o rs[j].x \o "]: " \o rs[j].b \o (IF rs[j].c # "" THEN " \"" \o rs[j].c \o "\"" ELSE "") \o "\n"])
+FullSrc(d, sp) == DocSrc(d, sp) \o Trailer(d)
 \* code lines: a = source, b = HTML
 CodeLines == { [a |-> "plain code", b |-> "plain code"], [a |-> "a < b && c", b |-> "a &lt; b &amp;&amp; c"], [a |-> "*not em* `tick`", b |-> "*not em* `tick`"] }
-Item(b, loose, mode, smart) == IF b.k = "para" /\ ~loose THEN LineHtml(b.il, mode, smart) ELSE BlockHtml(b, mode, smart)
-BlockHtml(b, mode, smart) ==
-  CASE b.k = "para"     -> IF mode = "mmd" /\ Len(b.il) = 1 /\ b.il[1].k = "img"
-                           THEN "<figure>" \o InlHtml(b.il[1], mode, smart) \o "<figcaption>" \o b.il[1].a \o "</figcaption></figure>"      \* an image alone in a paragraph is a figure (MMD)
-                           ELSE "<p>" \o LineHtml(b.il, mode, smart) \o "</p>"
-    [] b.k \in {"atx", "setext"} -> "<h" \o ToString(b.l) \o (IF mode = "mmd" THEN " id=\"" \o Label(b.il) \o "\"" ELSE "") \o ">" \o LineHtml(b.il, mode, smart) \o "</h" \o ToString(b.l) \o ">"
+Item(b, loose, cx) == IF b.k = "para" /\ ~loose THEN LineHtml(b.il, cx) ELSE BlockHtml(b, cx)
+AlStyle(a) == CASE a = "l" -> " style=\"text-align:left;\"" [] a = "c" -> " style=\"text-align:center;\"" [] a = "r" -> " style=\"text-align:right;\"" [] OTHER -> ""
+RowHtml(tag, cells, al, cx) == "<tr>" \o Cat([j \in 1 .. Len(cells) |-> "<" \o tag \o AlStyle(al[j]) \o ">" \o LineHtml(cells[j], cx) \o "</" \o tag \o ">"]) \o "</tr>"
+TableHtml(t, cx) ==
+  "<table" \o (IF t.cap # "" THEN " id=\"" \o t.cap \o "\"" ELSE "") \o ">"
+  \o (IF t.cap # "" THEN "<caption style=\"caption-side: bottom;\">" \o t.cap \o "</caption>" ELSE "")
+  \o "<colgroup>" \o Cat([j \in 1 .. Len(t.al) |-> IF t.al[j] = "n" THEN "<col />" ELSE "<col" \o AlStyle(t.al[j]) \o "/>"]) \o "</colgroup>"
+  \o "<thead>" \o RowHtml("th", t.hd, t.al, cx) \o "</thead>"
+  \o "<tbody>" \o Cat([r \in 1 .. Len(t.rows) |-> RowHtml("td", t.rows[r], t.al, cx)]) \o "</tbody></table>"
+BlockHtml(b, cx) ==
+  CASE b.k = "para"     -> IF cx.mode = "mmd" /\ Len(b.il) = 1 /\ b.il[1].k = "img"
+                           THEN "<figure>" \o InlHtml(b.il[1], cx) \o "<figcaption>" \o b.il[1].a \o "</figcaption></figure>"      \* an image alone in a paragraph is a figure (MMD)
+                           ELSE "<p>" \o LineHtml(b.il, cx) \o "</p>"
+    [] b.k \in {"atx", "setext"} -> "<h" \o ToString(b.l) \o (IF cx.mode = "mmd" THEN " id=\"" \o Label(b.il) \o "\"" ELSE "") \o ">" \o LineHtml(b.il, cx) \o "</h" \o ToString(b.l) \o ">"
     [] b.k = "hr"       -> "<hr />"
     [] b.k = "fenced"   -> "<pre><code" \o (IF b.info # "" THEN " class=\"" \o b.info \o "\"" ELSE "") \o ">" \o Cat([j \in 1 .. Len(b.s) |-> b.s[j].b \o "\n"]) \o "</code></pre>"
     [] b.k = "indented" -> "<pre><code>" \o Cat([j \in 1 .. Len(b.s) |-> b.s[j].b \o "\n"]) \o "</code></pre>"
-    [] b.k = "quote"    -> "<blockquote>" \o DocHtml(b.d, mode, smart) \o "</blockquote>"
-    [] OTHER            -> (IF b.o THEN "<ol>" ELSE "<ul>") \o Cat([j \in 1 .. Len(b.d) |-> "<li>" \o Item(b.d[j], b.z, mode, smart) \o "</li>"]) \o (IF b.o THEN "</ol>" ELSE "</ul>")
-DocHtml(d, mode, smart) == Cat([j \in 1 .. Len(d) |-> BlockHtml(d[j], mode, smart)])
+    [] b.k = "quote"    -> "<blockquote>" \o DocHtml(b.d, cx) \o "</blockquote>"
+    [] b.k = "table"    -> TableHtml(b.t, cx)
+    [] b.k = "deflist"  -> "<dl>" \o Cat([g \in 1 .. Len(b.t.rows) |->
+                                 Cat([j \in 1 .. Len(b.t.rows[g][1]) |-> "<dt>" \o LineHtml(b.t.rows[g][1][j], cx) \o "</dt>"])
+                                 \o Cat([j \in 1 .. Len(b.t.rows[g][2]) |-> "<dd>" \o LineHtml(b.t.rows[g][2][j], cx) \o "</dd>"])]) \o "</dl>"
+    [] OTHER            -> (IF b.o THEN "<ol>" ELSE "<ul>") \o Cat([j \in 1 .. Len(b.d) |-> "<li>" \o Item(b.d[j], b.z, cx) \o "</li>"]) \o (IF b.o THEN "</ol>" ELSE "</ul>")
+DocHtml(d, cx) == Cat([j \in 1 .. Len(d) |-> BlockHtml(d[j], cx)])
+Cx(d, mode, smart) == [mode |-> mode, smart |-> smart, notes |-> Notes(d)]
+\* the footnotes follow the body, numbered in order of first reference, each with its way back
+NotesHtml(d, cx) == IF cx.notes = <<>> THEN "" ELSE
+  "<div class=\"footnotes\"><hr /><ol>"
+  \o Cat([j \in 1 .. Len(cx.notes) |-> "<li id=\"fn:" \o ToString(j) \o "\"><p>" \o cx.notes[j].c
+          \o " <a href=\"#fnref:" \o ToString(j) \o "\" title=\"return to body\" class=\"reversefootnote\">&#160;&#8617;&#xfe0e;</a></p></li>"])
+  \o "</ol></div>"
+FullHtml(d, mode, smart) == LET cx == Cx(d, mode, smart) IN DocHtml(d, cx) \o NotesHtml(d, cx)
 
 \* ---- generation ---------------------------------------------------------------------------------------------------------
 Pick(S) == IF Sim THEN {RandomElement(S)} ELSE S
-HeadTexts == {<<Inl("t", "alpha", "", "")>>, <<Inl("t", "alpha", "", ""), Inl("t", "beta", "", "")>>, <<Inl("t", "x1", "", "")>>}
-ParaLines == {<<i>> : i \in Inlines} \cup {<<Inl("t", "alpha", "", ""), i, Inl("t", "x1", "", "")>> : i \in Inlines \ {Inl("br", "x1", "beta", "")}}
-Leaf == {Para(<<Inl("t", "alpha", "", "")>>), Para(<<Inl("em", "beta", "", ""), Inl("t", "x1", "", "")>>)}
+T(a) == Inl("t", a, "", "")
+T1(a) == <<T(a)>>
+EmB == <<Inl("em", "beta", "", "")>>
+HeadTexts == {<<T("alpha")>>, <<T("alpha"), T("beta")>>, <<T("x1")>>}
+ParaLines == {<<i>> : i \in Inlines \cup MmdInlines} \cup {<<T("alpha"), i, T("x1")>> : i \in (Inlines \cup MmdInlines) \ {Inl("br", "x1", "beta", "")}}
+             \cup {<<FnB, T("beta"), FnA>>, <<RefB, RefA, RefB>>, <<FnA, RefA>>}
+Leaf == {Para(<<T("alpha")>>), Para(<<Inl("em", "beta", "", ""), T("x1")>>)}
+MmdLeaf == {Para(<<FnA>>), Para(<<RefB, T("x1")>>)}
+Cells == {<<T("alpha")>>, <<Inl("em", "beta", "", "")>>, <<Inl("code", "co de", "", "")>>, <<Inl("ent", "&", "&amp;", ""), T("x1")>>, <<Inl("link", "alpha", "http://u.rl/p", "")>>, <<RefB>>, <<Inl("st", "x1", "", ""), T("beta")>>}
+Als == {<<"l", "c", "r">>, <<"n", "n">>, <<"c">>, <<"n", "r">>, <<"r", "n", "l">>}
+RowsFor(n) == {<<[j \in 1 .. n |-> c]>> : c \in Cells} \cup {<<[j \in 1 .. n |-> <<T("x1")>>], [j \in 1 .. n |-> IF j = 1 THEN c ELSE <<T("beta")>>]>> : c \in Cells}
+Tables == UNION {{Table(al, [j \in 1 .. Len(al) |-> IF j = 2 THEN <<Inl("em", "beta", "", "")>> ELSE <<T("alpha")>>], rows, cap) : rows \in RowsFor(Len(al)), cap \in {"", "caption"}} : al \in Als}
+DefTexts == {<<T("alpha")>>, <<Inl("em", "beta", "", ""), T("x1")>>, <<Inl("code", "co de", "", "")>>, <<RefA>>, <<T("x1"), Inl("ent", "<", "&lt;", "")>>}
+Grp(terms, defs) == <<terms, defs>>
+DefLists == {DefList(<<Grp(<<t>>, <<d1>>)>>) : t \in DefTexts, d1 \in DefTexts}
+            \cup {DefList(<<Grp(<<T1("alpha"), T1("x1")>>, <<d1, d2>>)>>) : d1 \in DefTexts, d2 \in DefTexts}
+            \cup {DefList(<<Grp(<<T1("alpha")>>, <<T1("beta")>>), Grp(<<t>>, <<d1>>)>>) : t \in DefTexts, d1 \in {T1("x1"), <<Inl("st", "x1", "", "")>>}}
 Singles == {Para(p) : p \in ParaLines} \cup {Atx(l, h) : l \in {1, 2, 3, 6}, h \in HeadTexts} \cup {Setext(l, h) : l \in {1, 2}, h \in HeadTexts} \cup {Hr}
            \cup {Fenced(i, <<c>>) : i \in {"", "c"}, c \in CodeLines} \cup {Fenced("", <<c1, c2>>) : c1 \in CodeLines, c2 \in CodeLines} \cup {Indented(<<c>>) : c \in CodeLines}
-Simple == {Para(<<Inl("t", "alpha", "", "")>>), Para(<<Inl("st", "x1", "", ""), Inl("t", "beta", "", "")>>), Atx(2, <<Inl("t", "beta", "", "")>>), Setext(1, <<Inl("t", "x1", "", "")>>), Hr,
+           \cup Tables \cup DefLists
+Simple == {Para(<<T("alpha")>>), Para(<<Inl("st", "x1", "", ""), T("beta")>>), Atx(2, <<T("beta")>>), Setext(1, <<T("x1")>>), Hr,
            Fenced("", <<[a |-> "plain code", b |-> "plain code"]>>), Indented(<<[a |-> "a < b && c", b |-> "a &lt; b &amp;&amp; c"]>>)}
-Containers == {Quote(<<c>>) : c \in Simple} \cup {Quote(<<c1, c2>>) : c1 \in Leaf, c2 \in Simple}
-              \cup {List(o, z, <<a, b>>) : o \in BOOLEAN, z \in BOOLEAN, a \in Leaf, b \in Leaf} \cup {List(o, FALSE, <<a>>) : o \in BOOLEAN, a \in Leaf}
-              \cup {Quote(<<List(FALSE, FALSE, <<a, b>>)>>) : a \in Leaf, b \in Leaf}
-Independent == Simple \cup {Quote(<<c>>) : c \in Leaf}        \* blocks that do not refer to one another: the compositionality family
-Sps == {[us |-> u, bullet |-> bl, lead |-> ld, closed |-> cl, ul |-> n, fence |-> f, hr |-> h] :
-          u \in Pick(BOOLEAN), bl \in Pick({"*", "+", "-"}), ld \in Pick({0, 2}), cl \in Pick(BOOLEAN), n \in Pick({2, 7}), f \in Pick({3, 5}), h \in Pick({1, 2, 3})}
-DefaultSp == [us |-> FALSE, bullet |-> "*", lead |-> 0, closed |-> FALSE, ul |-> 5, fence |-> 3, hr |-> 1]
+SomeTable == Table(<<"n", "r">>, <<T1("alpha"), T1("beta")>>, << <<EmB, T1("x1")>> >>, "")
+
+SomeDl == DefList(<<Grp(<<T1("alpha")>>, << <<T("x1"), T("beta")>> >>)>>)
+\* (a table inside a block quote is not in the documented subset: the guides show tables at the top level only, and the library reads '> | a | b |' as text)
+Containers == {Quote(<<c>>) : c \in Simple \cup MmdLeaf \cup {SomeDl}} \cup {Quote(<<c1, c2>>) : c1 \in Leaf, c2 \in Simple}
+              \cup {List(o, z, <<a, b>>) : o \in BOOLEAN, z \in BOOLEAN, a \in Leaf \cup MmdLeaf, b \in Leaf} \cup {List(o, FALSE, <<a>>) : o \in BOOLEAN, a \in Leaf}
+              \cup {Quote(<<List(FALSE, FALSE, <<a, b>>)>>) : a \in Leaf, b \in Leaf \cup MmdLeaf}
+Independent == Simple \cup {Quote(<<c>>) : c \in Leaf} \cup {SomeTable, SomeDl}        \* blocks that do not refer to one another: the compositionality family
+\* documents whose notes and references interleave: numbering by first reference, definitions shared
+NoteDocs == {<<Para(<<a>>), b, Para(<<c>>)>> : a \in {FnB, RefB}, b \in {Hr, SomeTable, Quote(<<Para(<<FnA>>)>>)}, c \in {FnA, FnB, RefA, RefB}}
+Sps == {[us |-> u, bullet |-> bl, lead |-> ld, closed |-> cl, ul |-> n, fence |-> f, hr |-> h, pipes |-> pp] :
+          u \in Pick(BOOLEAN), bl \in Pick({"*", "+", "-"}), ld \in Pick({0, 2}), cl \in Pick(BOOLEAN), n \in Pick({2, 7}), f \in Pick({3, 5}), h \in Pick({1, 2, 3}), pp \in Pick(BOOLEAN)}
+DefaultSp == [us |-> FALSE, bullet |-> "*", lead |-> 0, closed |-> FALSE, ul |-> 5, fence |-> 3, hr |-> 1, pipes |-> TRUE]
 \* spelling variants that matter for a block kind (to keep the enumeration small)
 SpFor(b) == CASE b.k = "para" -> {[DefaultSp EXCEPT !.us = u] : u \in BOOLEAN}
               [] b.k = "atx" -> {[DefaultSp EXCEPT !.closed = c] : c \in BOOLEAN}
@@ -129,10 +227,12 @@ SpFor(b) == CASE b.k = "para" -> {[DefaultSp EXCEPT !.us = u] : u \in BOOLEAN}
               [] b.k = "hr" -> {[DefaultSp EXCEPT !.hr = h] : h \in {1, 2, 3}}
               [] b.k = "fenced" -> {[DefaultSp EXCEPT !.fence = f] : f \in {3, 4, 5}}
               [] b.k = "list" -> {[DefaultSp EXCEPT !.bullet = bl, !.lead = ld] : bl \in {"*", "+", "-"}, ld \in {0, 1, 3}}
+              [] b.k = "table" -> {[DefaultSp EXCEPT !.pipes = pp] : pp \in BOOLEAN}
               [] OTHER -> {DefaultSp}
 VARIABLE g
 Init == CASE Family = "single"    -> g \in UNION {{[d |-> <<b>>, sp |-> s] : s \in SpFor(b)} : b \in Singles \cup Containers}
           [] Family = "pair"      -> g \in {[d |-> <<a, b>>, sp |-> DefaultSp] : a \in Independent, b \in Independent}
+          [] Family = "notes"     -> g \in {[d |-> d, sp |-> DefaultSp] : d \in NoteDocs}
           [] OTHER                -> g = [d |-> <<>>, sp |-> RandomElement(Sps)]
 Next == Family = "random" /\ Len(g.d) < MaxBlocks /\ g' = [g EXCEPT !.d = Append(@, RandomElement(Simple \cup Containers \cup Singles))]
 \* adjacent blocks that would merge or re-interpret each other are outside the unambiguous subset
@@ -141,7 +241,12 @@ Unambiguous(d) == \A i \in 1 .. (Len(d) - 1) :
    /\ ~(d[i].k = "indented" /\ d[i + 1].k = "indented")                         \* two indented blocks are one
    /\ ~(d[i].k = "quote" /\ d[i + 1].k = "quote")
    /\ ~(d[i].k = "para" /\ d[i + 1].k = "hr")                                   \* "---" under a paragraph is a Setext underline
-Emit == (g.d # <<>> /\ Unambiguous(g.d)) => PrintT(ToJson([d |-> g.d, sp |-> g.sp, src |-> DocSrc(g.d, g.sp)]))
+   /\ ~(d[i].k = "table" /\ d[i + 1].k = "table")                               \* a table after a table is a further section of it
+   /\ ~(d[i].k = "deflist" /\ d[i + 1].k \in {"deflist", "indented"})           \* further terms / continuation of the definition
+   /\ ~(d[i].k = "table" /\ d[i + 1].k = "para" /\ Len(d[i + 1].il) = 1 /\ d[i + 1].il[1].k = "ref")      \* "[text][label]" after a table is its caption
+\* a note referred to twice is outside the subset (which of the references carries the id is not prescribed)
+NoDupNotes(d) == LET f == SelectSeq(Collect(d), LAMBDA i : i.k = "fn") IN Len(f) = Len(Dedup(f))
+Emit == (g.d # <<>> /\ Unambiguous(g.d) /\ NoDupNotes(g.d)) => PrintT(ToJson([d |-> g.d, sp |-> g.sp, src |-> FullSrc(g.d, g.sp)]))
 \* compositionality holds for the reference by construction; stated so that TLC checks the definition
-CompLaw == \A m \in {"mmd", "compat"} : DocHtml(g.d, m, TRUE) = Cat([j \in 1 .. Len(g.d) |-> DocHtml(<<g.d[j]>>, m, TRUE)])
+CompLaw == \A m \in {"mmd", "compat"} : DocHtml(g.d, Cx(g.d, m, TRUE)) = Cat([j \in 1 .. Len(g.d) |-> DocHtml(<<g.d[j]>>, Cx(g.d, m, TRUE))])
 =============================================================================
